@@ -502,7 +502,17 @@ func parseContractLines(pkgPath, path string, lines []string) (*ContractFile, er
 			}
 			head := strings.Fields(rest[:i])
 			lm := &Lemma{Name: head[0], Src: strings.Join(strings.Fields(rest[i+1:]), " "), PkgPath: pkgPath}
-			for _, h := range head[1:] {
+			for hi := 1; hi < len(head); hi++ {
+				h := head[hi]
+				if h == "induction" && hi+3 < len(head)+1 && hi+2 < len(head) && head[hi+2] == "from" {
+					lm.IndVar = head[hi+1]
+					fe, err := parseSpecExpr(strings.Join(head[hi+3:], " "))
+					if err != nil {
+						return nil, fmt.Errorf("%s: lemma %s: %v", path, lm.Name, err)
+					}
+					lm.IndFrom = fe
+					break
+				}
 				lm.Props = append(lm.Props, strings.Split(strings.Trim(h, "[]"), ",")...)
 			}
 			e, err := parseSpecExpr(rest[i+1:])
@@ -513,10 +523,13 @@ func parseContractLines(pkgPath, path string, lines []string) (*ContractFile, er
 			cf.Lemmas = append(cf.Lemmas, lm)
 			curLemma = lm
 		case "uses":
-			if curLemma == nil {
-				return nil, fmt.Errorf("%s: 'uses' outside lemma", path)
+			if curLemma != nil {
+				curLemma.Uses = append(curLemma.Uses, strings.Fields(strings.ReplaceAll(rest, ",", " "))...)
+			} else if cur != nil {
+				cur.Uses = append(cur.Uses, strings.Fields(strings.ReplaceAll(rest, ",", " "))...)
+			} else {
+				return nil, fmt.Errorf("%s: 'uses' outside lemma/func", path)
 			}
-			curLemma.Uses = append(curLemma.Uses, strings.Fields(strings.ReplaceAll(rest, ",", " "))...)
 		case "axiom":
 			if curGhost == nil {
 				return nil, fmt.Errorf("%s: 'axiom' outside ghost func", path)
